@@ -1,4 +1,5 @@
 import BeffVerif.Props.C09
+import BeffVerif.Props.C09Bind
 open BeffVerif.C09
 #print axioms getType_sound
 #print axioms resolveType_sound
@@ -8,3 +9,6 @@ open BeffVerif.C09
 #print axioms resolveQual_sound
 #print axioms qualPath_sound
 #print axioms resolveName_sound
+#print axioms bind_wf
+#print axioms resolveType_lands
+#print axioms bound_project_resolves_to_declarations
